@@ -49,7 +49,7 @@ Lemma walk_get : forall defs s cur c, walkr cur s = WFound c -> get_path_from de
 Proof.
   induction s as [|seg rest IH]; intros cur c H; cbn in *.
   - inversion H. reflexivity.
-  - destruct cur as [|id k items| | |]; try discriminate.
+  - destruct cur as [|id k items| | | |]; try discriminate.
     destruct (is_set k) eqn:Es; [discriminate|].
     destruct (child_at k items seg) as [c'|] eqn:Ec; [|discriminate].
     unfold getitem. cbn [resolve].
@@ -64,7 +64,7 @@ Qed.
 Lemma walk_cross : forall defs s cur, walkr cur s = WSet -> crosses_set defs cur s = true.
 Proof.
   induction s as [|seg rest IH]; intros cur H; cbn in *; [discriminate|].
-  destruct cur as [|id k items| | |]; try discriminate. cbn [resolve].
+  destruct cur as [|id k items| | | |]; try discriminate. cbn [resolve].
   destruct (is_set k) eqn:Es; [reflexivity|].
   destruct (child_at k items seg) as [c'|] eqn:Ec; [|discriminate].
   destruct k; cbn in Es; try discriminate; cbn [child_at] in Ec.
@@ -170,7 +170,7 @@ Section Paths.
 
   Lemma srb_events : forall o, ev_ok o.
   Proof.
-    induction o as [n|id k items IH|id k|k|id k] using obj_ind2; unfold ev_ok;
+    induction o as [n|id k items IH|id k|k|id k|w] using obj_ind2; unfold ev_ok;
       intros Hw rt p ky m lg v m' lg' E e He.
     - cbn in E. inversion E; subst. rewrite in_app_iff in He. destruct He as [H|[<-|[]]]; tauto.
     - rewrite srb_node in E. destruct (t_get m id); [inversion E; subst; tauto|]. cbv zeta in E.
@@ -196,6 +196,7 @@ Section Paths.
       rewrite in_app_iff in He. destruct He as [H|[<-|[]]]; tauto.
     - cbn in E. inversion E; subst. rewrite in_app_iff in He. destruct He as [H|[<-|[]]]; tauto.
     - cbn in E. inversion E; subst. rewrite in_app_iff in He. destruct He as [H|[<-|[]]]; tauto.
+    - cbn in E. inversion E; subst. rewrite in_app_iff in He. destruct He as [H|[<-|[]]]; tauto.
   Qed.
 End Paths.
 
@@ -218,7 +219,7 @@ Proof.
   intros q root l Hw Hr p r Hin Hp Hc. unfold research in Hr.
   pose proof (machine_is_recursion None true (collect_defs root) root) as HM. cbn [lift] in HM.
   rewrite HM in Hr. clear HM. unfold srb_root in Hr.
-  destruct root as [n|id k items|id k|k|id k]; try (cbn in Hr; discriminate).
+  destruct root as [n|id k items|id k|k|id k|w]; try (cbn in Hr; discriminate).
   destruct (srb impl_blank None (collect_defs (ONode id k items)) true [] KNone (ONode id k items) [] [])
     as [[v m] lg] eqn:E.
   inversion Hr; subst l. clear Hr.
@@ -248,7 +249,7 @@ Theorem get_path_is_lookup : forall root p,
 Proof.
   intros root p. unfold get_path. generalize (collect_defs root) as defs. intro defs.
   revert root. induction p as [|seg rest IH]; intro cur; cbn [get_path_from lookup_path]; [reflexivity|].
-  unfold getitem. destruct (resolve defs cur) as [n|id k items|id k|k|id k]; try reflexivity.
+  unfold getitem. destruct (resolve defs cur) as [n|id k items|id k|k|id k|w]; try reflexivity.
   destruct k; try reflexivity.
   - destruct (seg_index seg) as [i|]; [|reflexivity]. destruct (nth_error items i) as [[k' c]|]; [apply IH|reflexivity].
   - destruct (seg_index seg) as [i|]; [|reflexivity]. destruct (nth_error items i) as [[k' c]|]; [apply IH|reflexivity].
